@@ -48,7 +48,10 @@ class Prog:
         return f"case {self.cid}\n" + "\n".join(self.lines) + "\nend\n"
 
 
-CONST_POOL = [0.0, 1.0, -1.0, 2.0, 0.5, -0.5, 3.0, -2.0, 0.25, 1.5, 10.0, -0.0]
+# -0.0 is deliberately absent: the optimiser's canonical map gives 0.0 and -0.0 one key, and IEEE
+# branch cuts (atan2(-0, y<0) = -pi, 1/-0 = -inf) then make the float value depend on which zero
+# survives; the properties speak of the real-valued function, where the two zeros are equal
+CONST_POOL = [0.0, 1.0, -1.0, 2.0, 0.5, -0.5, 3.0, -2.0, 0.25, 1.5, 10.0, 4.0]
 
 
 def gen_program(rng, cid, size, ops_un=None, ops_bin=None, remap_p=0.08, apply_p=0.05,
